@@ -48,6 +48,8 @@ static void list_units(const std::string& tier)
             // three levels, relations that are unions of two "events" (single transitions with identity elsewhere), every cube as initial set
             if (th || rr[0]=='I') printf("mode=reach,shape=S6,rel=%s,set=%s,rels=ev2\n", rr, sr);
             if (th) printf("mode=dist,shape=S6,rel=%s,set=%s,rels=%s\n", rr, sr, rr[0]=='I'?"ev2":"ev1");
+            // guarded events over a background task on sizes (3,4): every set of <= 4 events, EV+ distance and boolean saturation vs explicit search
+            if (th || rr[0]=='I') for (int i=0;i<8;i++) printf("mode=gev,shape=S13,rel=%s,set=%s,k=4,part=%d/8\n", rr, sr, i);
             printf("mode=dist,shape=S1,rel=%s,set=%s,rels=all\n", rr, sr);
             printf("mode=dist,shape=S2,rel=%s,set=%s,rels=%s\n", rr, sr, "all");
             printf("mode=dist,shape=S3,rel=%s,set=%s,rels=%s\n", rr, sr, th?"fam":"fam0");
@@ -336,9 +338,92 @@ static void run_vm(const std::map<std::string,std::string>& spec)
     lib_done();
 }
 
+// ---- guarded events over a background task: two variables with sizes > 2 (S13 = 3 x 4, 144 relation points - no function numbers here).
+// Relation = B u e1 u ... u ek, B = "x1 counts up, x2 unchanged" (the background task), ei from the catalogue of every single
+// transition on (x2,x1) jointly (x1 tested/changed or not) and on x2 alone; every SET of <= k catalogue events; initial state (0,0).
+// Oracles: explicit shortest distances / closure; EV+ distance saturation vs traditional iteration; boolean saturation.
+struct GEvent { std::string name; std::vector<long> pts; };
+static std::vector<GEvent> g_gev; static std::string g_gunit;
+static void fmt_gev(char* buf, size_t n, const long* a)
+{
+    std::string ev; for (int i=1;i<=4;i++) if (a[i]>=0) { ev += g_gev[a[i]].name; ev += ' '; }
+    snprintf(buf,n,"%s %s relation = count(x1) u { %s} initial state (0,0)", g_gunit.c_str(), (const char*)a[0], ev.c_str());
+}
+static void run_gev(const std::map<std::string,std::string>& spec)
+{
+    Shape s = shape_by_name(spec_get(spec,"shape"));
+    int K = (int)spec_int(spec,"k",3), part=0, nparts=1; { std::string ps = spec_get(spec,"part","0/1"); sscanf(ps.c_str(),"%d/%d",&part,&nparts); }
+    Kind rk; rk.rel=true; rk.range='b'; rk.lab='m'; rk.rr=spec_get(spec,"rel")[0];
+    char setrule = spec_get(spec,"set")[0];
+    g_gunit = "gev shape="+s.name+" rel="+rk.name()+" set-rule="+setrule;
+    if (s.K()!=2) { declined("gev needs two variables"); return; }
+    const long RP = s.relPoints(), N = s.setPoints(); int x[16], xp[16];
+    const int b1=s.b[0], b2=s.b[1];
+    // catalogue
+    g_gev.clear();
+    for (int a=0;a<b2;a++) for (int c=0;c<b2;c++) {
+        if (a!=c) { GEvent e; char nm[48]; snprintf(nm,sizeof nm,"[x2:%d>%d]",a,c); e.name=nm; for (long p=0;p<RP;p++) { decode_rel(s,p,x,xp); if (x[2]==a && xp[2]==c && x[1]==xp[1]) e.pts.push_back(p); } g_gev.push_back(e); }
+        for (int f=0;f<b1;f++) for (int t=0;t<b1;t++) { if (a==c && f==t) continue; GEvent e; char nm[48]; snprintf(nm,sizeof nm,"[x2:%d>%d&x1:%d>%d]",a,c,f,t); e.name=nm; for (long p=0;p<RP;p++) { decode_rel(s,p,x,xp); if (x[2]==a && xp[2]==c && x[1]==f && xp[1]==t) e.pts.push_back(p); } g_gev.push_back(e); }
+    }
+    const int C = (int)g_gev.size(); ctx.counters["catalogue"]=C;
+    Table base(RP,0.0); for (long p=0;p<RP;p++) { decode_rel(s,p,x,xp); if (x[2]==xp[2] && xp[1]==x[1]+1) base[p]=1; }
+    lib_init();
+    domain* d = make_domain(s);
+    forest* FR = make_forest(d,rk,Pol());
+    Kind skb; skb.rel=false; skb.range='b'; skb.lab='m'; skb.rr=setrule; Kind ske=skb; ske.range='i'; ske.lab='p';
+    forest* FB = make_forest(d,skb,Pol()); forest* FE = make_forest(d,ske,Pol());
+    struct Alg { const char* nm; binary_operation* op; bool fwd; bool evp; };
+    std::vector<Alg> algs;
+    for (int fw=1; fw>=0; fw--) {
+        if (FE) { algs.push_back({fw?"EV+ SATUR(fwd)":"EV+ SATUR(bwd)", get_bop(REACHABLE_SATUR(fw),FE,FR,FE,"REACHABLE_SATUR[EV+]"), (bool)fw, true});
+                  algs.push_back({fw?"EV+ TRAD_NOFS(fwd)":"EV+ TRAD_NOFS(bwd)", get_bop(REACHABLE_TRAD_NOFS(fw),FE,FR,FE,"REACHABLE_TRAD_NOFS[EV+]"), (bool)fw, true}); }
+        if (FB) algs.push_back({fw?"bool SATUR(fwd)":"bool SATUR(bwd)", get_bop(REACHABLE_SATUR(fw),FB,FR,FB,"REACHABLE_SATUR[bool]"), (bool)fw, false});
+    }
+    Builder BR(FR,rk,s), BB(FB,skb,s), BE(FE,ske,s);
+    dd_edge rel(FR), initB(FB), initE(FE), rB(FB), rE(FE);
+    Table itB(N,0.0), itE(N,INF), init0(N,INF); itB[0]=1; itE[0]=0; init0[0]=0;
+    BB.build(itB, initB); BE.build(itE, initE);
+    Table rt = base; std::vector<int> chosen;
+    long combo=0;
+    std::function<void(int)> rec = [&](int from) {
+        if (ctx.stop) return;
+        if (!chosen.empty() && ((combo++ % nparts)==part)) {
+            BR.build(rt, rel);
+            Graph g = graph_of(s, rt);
+            long a1 = chosen.size()>0?chosen[0]:-1, a2 = chosen.size()>1?chosen[1]:-1, a3 = chosen.size()>2?chosen[2]:-1, a4 = chosen.size()>3?chosen[3]:-1;
+            for (auto& a : algs) {
+                if (!a.op) continue;
+                if (!case_lazy(fmt_gev, (long)a.nm, a1, a2, a3, a4)) continue;
+                Table dd = dist_model(g,init0,a.fwd), want(N);
+                for (long p=0;p<N;p++) want[p] = a.evp ? dd[p] : (double)(dd[p]!=INF);
+                try {
+                    if (a.evp) a.op->compute(initE, rel, rE); else a.op->compute(initB, rel, rB);
+                    std::string err = check_result(a.evp?rE:rB, a.evp?ske:skb, s, want, true);
+                    if (!err.empty()) violation(err.compare(0,12,"NONCANONICAL")==0?"noncanonical-result":"wrong-result","relation [%s]: %s", tab_str(rt).c_str(), err.c_str());
+                } catch (MEDDLY::error e) { violation("op-error","threw %s (%s:%u)", e.getName(), e.getFile(), e.getLine()); }
+                bool moved=false; for (long p=1;p<N;p++) if (dd[p]!=INF) moved=true;
+                if (moved) note_nontrivial(hmix(hmix(hmix(hmix(hstr(a.nm),a1+1),a2+1),a3+1),a4+1));
+            }
+            if (ctx.viol>ctx.maxviol && ctx.only<0 && ctx.upto<0) ctx.stop=true;
+        }
+        if ((int)chosen.size()==K) return;
+        for (int e=from; e<C; e++) {
+            std::vector<long> added; for (long p : g_gev[e].pts) if (rt[p]==0) { rt[p]=1; added.push_back(p); }
+            chosen.push_back(e); rec(e+1); chosen.pop_back();
+            for (long p : added) rt[p]=0;
+        }
+    };
+    rec(0);
+    rel.detach(); initB.detach(); initE.detach(); rB.detach(); rE.detach();
+    for (auto fk : {std::make_pair(FB,skb), std::make_pair(FE,ske), std::make_pair(FR,rk)}) if (fk.first) { std::string a = audit_forest(fk.first,fk.second); if (!a.empty()) { strcpy(ctx.cur,(g_gunit+" final audit").c_str()); lz_fn_reset(); violation("audit","%s",a.c_str()); } }
+    domain::destroy(d);
+    lib_done();
+}
+
 static void run_unit(const std::map<std::string,std::string>& spec)
 {
     std::string m = spec_get(spec,"mode");
+    if (m=="gev") run_gev(spec); else
     if (m=="reach") run_reach(spec); else if (m=="dist") run_dist(spec); else if (m=="image") run_image(spec); else run_vm(spec);
 }
 int main(int argc, char** argv) { return std_main(argc, argv, list_units, run_unit); }
